@@ -94,6 +94,9 @@ class SpecStream(threading.Thread):
     def run(self):
         ctx, quick = self.ctx, self.quick
         try:
+            if os.environ.get("VERIF_C10_SKIP_MC"):     # development only (seed sweeps, mutation runs): binding without step 1
+                ctx.inconclusive_note("model checking skipped (VERIF_C10_SKIP_MC): only the binding was exercised")
+                return
             # the model of the pinned code deadlocks on an empty key list (F1); kept as the explanation of that disagreement class
             self.f1_trace = as_code_must_hang(ctx, "MC_ascode_empty", "Deadlock")
             fine = ["MC_fine_q1", "MC_fine_q2"] if quick else \
@@ -190,6 +193,8 @@ def run(ctx):
         if f1:
             specs.join()            # the explanation comes from the model of the pinned code
             for m in f1:
+                m["repro"] = ("ring.DoBatchWithOptions(context.Background(), ring.Write, r, nil, cb, ring.DoBatchOptions{}) never returns "
+                              "(any DoBatchRing r with InstancesCount() > 0): rpcsPending starts at 0, nobody sends on tracker.done")
                 m["spec_counterexample"] = ("TLC on the model of the pinned code (MC_ascode_empty.cfg, EmptyFix = FALSE): "
                                             "Deadlock reached: " + specs.f1_trace)
         ctx.absorb(res, "replay (grain call: one step per returning replica call; grain hook: one step per stretch between yield points)")
